@@ -18,6 +18,9 @@ CHECKS = {
  "C07": ("model_checking", "TLA+ spec Refine.tla (grid): TLC proves GridRefineOK(Walk) and the inverse-CDF laws on the bounded rational model; trace validation (Trace_C07) of vegas_refine_pdf / vegas_icdf / default grids / real runs: exact share law for alpha=0 dyadic cases, validity + driver-evaluated shares for general alpha, unchanged grid on no data",
          "The share law F(new_j) = j/B is evaluated by TLC in integers on every alpha=0 case (grids over k/8, data {0..3}^B); for alpha != 0 the damped importance is evaluated by the driver in long double and TLC checks the reported deviation, validity and no-information clauses on chains of up to 200 refinements and real adaptive runs.",
          "TLC; long double evaluation of ((r-1)/ln r)^alpha in the driver for the general-alpha share clause; floor(x*2^16) projection", "5/C07"),
+ "C11": ("model_checking", "TLA+ spec Bins.tla: TLC theorems on BinOf (half-open owner admissible, edges admit the two neighbours, outside/non-finite -> no bin, flat order = mid-point order); trace validation (Trace_C11): single fills on a quarter-bin lattice incl. +-inf/NaN/1e30 for 1-d and 2-d binnings and three scalings, and whole PLAIN/VEGAS/multi-channel iterations with three distributions recomputed fill by fill (the spec branches on edge fills)",
+         "Every observed fill must land in a bin BinOf admits (or nowhere), every bin must report exactly the sums of the values the spec routed to it times 1/area and the iteration's full call count.",
+         "TLC; dyadic parameters/coordinates make the library arithmetic exact; 'separate integration with the indicator function' is represented by recomputing each bin from the recorded fills", "5/C11"),
 }
 
 NOT_YET = {}
